@@ -270,6 +270,9 @@ func (u *Unit) evalIdent(st *State, x *ast.Ident) *Val {
 		if v, ok := st.vars[o]; ok {
 			return v
 		}
+		if isSentinel(o) {
+			return u.sentinel(st, o)
+		}
 		if o.Pkg() != nil && o.Parent() == o.Pkg().Scope() {
 			// package-level variable: a one-cell heap
 			name := "V!" + o.Pkg().Path() + "." + o.Name()
@@ -869,4 +872,21 @@ func exprString(n ast.Node) string {
 	}
 	fmt.Fprintf(&b, "%T", n)
 	return b.String()
+}
+
+// package-level error variables (sentinels such as ErrCircuitOpen, context.Canceled) are treated as immutable,
+// non-nil, pairwise distinct constants.
+func isSentinel(o *types.Var) bool {
+	if o.Pkg() == nil || o.Parent() != o.Pkg().Scope() {
+		return false
+	}
+	return types.TypeString(o.Type(), nil) == "error"
+}
+
+func (u *Unit) sentinel(st *State, o *types.Var) *Val {
+	u.trusted["package-level error variables are immutable non-nil sentinels"] = true
+	c := u.d.constant("sentinel!"+o.Pkg().Path()+"."+o.Name(), SInt)
+	u.sentinels[c] = true
+	st.assumeFact(app(">", c, "0"))
+	return &Val{T: o.Type(), S: c}
 }
